@@ -39,7 +39,11 @@ impl ProcessRegistry {
     }
 
     pub async fn remove(&self, pid: &ExternalPid) -> Option<ProcessHandle> {
-        self.by_pid.write().await.remove(pid)
+        let handle = self.by_pid.write().await.remove(pid);
+        // a name registered for the process goes with it, so that it no longer resolves
+        // and can be registered again
+        self.by_name.write().await.retain(|_, p| p != pid);
+        handle
     }
 
     pub async fn get(&self, pid: &ExternalPid) -> Option<ProcessHandle> {
